@@ -67,46 +67,91 @@ static void mk_bv(struct BV* b, int nseg, int ntof)
    && ((a).pos == (b).pos ? ((a).seg == (b).seg && (a).pre == (b).pre && (a).nax == (b).nax) : (a).seg != (b).seg)    \
    && ((a).pos < (b).pos ? (b).pre >= (a).pre + (a).nax : 1) && ((b).pos < (a).pos ? (a).pre >= (b).pre + (b).nax : 1) \
    && ((a).tpos == (b).tpos) == ((a).tof == (b).tof))
-#define BV_INDEX(b, s3d) ((b).pre * C02_V * C02_T + TMUL((b).tpos, s3d) + (b).ax * C02_V * C02_T + (b).vw * C02_T + (b).tg)
+#define CUT(c, msg)                                                                                                   \
+  do                                                                                                                  \
+    {                                                                                                                 \
+      __CPROVER_assert(c, msg);                                                                                       \
+      __CPROVER_assume(c);                                                                                            \
+    }                                                                                                                 \
+  while (0)
 #define BV_SAME(a, b) ((a).seg == (b).seg && (a).tof == (b).tof && (a).ax == (b).ax && (a).vw == (b).vw && (a).tg == (b).tg)
-/* Lemma over the CONTRACT of get_index (its closed form): two different bins of the data never share an element
-   ("a value written through any access path is read back unchanged ... and no other bin changes") */
+#define BV_ROW(b, total) (TMUL((b).tpos, total) + (b).pre + (b).ax)
+/* Lemma over the CONTRACT of get_index in its mixed-radix form (SPEC_INDEX_H): two different bins of the data never share
+   an element and every element lies inside the buffer ("a value written through any access path is read back unchanged
+   ... and no other bin changes"). One radix at a time (each step is asserted, then used). */
 void h_lemma_index_injective(void)
 {
   int nseg = nondet_int(), ntof = nondet_int(); long total = nondet_long();
   __CPROVER_assume(1 <= nseg && nseg <= MAXSEGS && 1 <= ntof && ntof <= MAXT);
   struct BV a, b; mk_bv(&a, nseg, ntof); mk_bv(&b, nseg, ntof);
   __CPROVER_assume(FACTS_P(a, b, total));
-  const long s3d = total * C02_V * C02_T;
-  const long ia = BV_INDEX(a, s3d), ib = BV_INDEX(b, s3d);
-  __CPROVER_assert(ia >= 0 && ia < TMUL(ntof, s3d), "index inside the buffer");
-  __CPROVER_assert(ia != ib || BV_SAME(a, b), "different bins have different elements");
-  if (a.tg + 1 < C02_T)
+  const long ra = BV_ROW(a, total), rb = BV_ROW(b, total);
+  const long qa = ra * C02_V + a.vw, qb = rb * C02_V + b.vw;
+  const long ia = qa * C02_T + a.tg, ib = qb * C02_T + b.tg;
+  CUT(ra >= 0 && ra < TMUL(ntof, total), "row number inside the rows of the data");
+  CUT(qa >= 0 && qa < TMUL(ntof, total) * C02_V, "row-and-view number in range");
+  __CPROVER_assert(ia >= 0 && ia < TMUL(ntof, total) * C02_V * C02_T, "index inside the buffer");
+  if (ia == ib)
     {
-      struct BV c = a; c.tg++;
-      __CPROVER_assert(BV_INDEX(c, s3d) == ia + 1, "a row of tangential positions is contiguous");
+      CUT(qa == qb && a.tg == b.tg, "same element => same tangential position");
+      CUT(ra == rb && a.vw == b.vw, "same element => same view");
+      CUT(a.tpos == b.tpos && a.pre + a.ax == b.pre + b.ax, "same element => same TOF block");
+      CUT(a.pos == b.pos && a.ax == b.ax, "same element => same segment and axial position");
+      __CPROVER_assert(BV_SAME(a, b), "different bins have different elements");
     }
+  if (a.tg + 1 < C02_T)
+    __CPROVER_assert((qa * C02_T + (a.tg + 1)) == ia + 1, "a row of tangential positions is contiguous");
 #ifdef LEMMA_CANARY
   __CPROVER_assert(0, "vacuity canary");
 #endif
 }
-/* same for the byte ranges [offset, offset+E) in a stream, both storage orders */
-#define BV_OFFSET(b, s3d, order_ax_view) ((b).pre * C02_V * C02_T * C02_E + TMUL((b).tpos, s3d)                        \
-   + ((order_ax_view) ? ((b).ax * C02_V * C02_T + (b).vw * C02_T + (b).tg) * C02_E : ((b).vw * (b).nax * C02_T + (b).ax * C02_T + (b).tg) * C02_E))
+/* same for the byte ranges [offset, offset+E) in a stream, both storage orders (SPEC_OFFSET_H) */
 void h_lemma_offset_disjoint(void)
 {
   int nseg = nondet_int(), ntof = nondet_int(); long total = nondet_long(); _Bool order = nondet_bool();
   __CPROVER_assume(1 <= nseg && nseg <= MAXSEGS && 1 <= ntof && ntof <= MAXT);
   struct BV a, b; mk_bv(&a, nseg, ntof); mk_bv(&b, nseg, ntof);
   __CPROVER_assume(FACTS_P(a, b, total));
-  const long s3d = total * C02_V * C02_T * C02_E;
-  const long oa = BV_OFFSET(a, s3d, order), ob = BV_OFFSET(b, s3d, order);
-  __CPROVER_assert(oa >= 0 && oa + C02_E <= TMUL(ntof, s3d), "element inside the data part of the stream");
-  __CPROVER_assert(BV_SAME(a, b) || oa + C02_E <= ob || ob + C02_E <= oa, "different bins occupy disjoint byte ranges");
-  if (a.tg + 1 < C02_T)
+  /* row-and-view number: sinogram order (row*V + view) or view order (first row of the segment*V + view*nax + ax) */
+  const long sa = TMUL(a.tpos, total) + a.pre, sb = TMUL(b.tpos, total) + b.pre;
+  const long ua = order ? a.ax * C02_V + a.vw : a.vw * a.nax + a.ax, ub = order ? b.ax * C02_V + b.vw : b.vw * b.nax + b.ax;
+  CUT(ua >= 0 && ua < (long)a.nax * C02_V && ub >= 0 && ub < (long)b.nax * C02_V, "position inside the segment's block");
+  const long qa = sa * C02_V + ua, qb = sb * C02_V + ub;
+  const long ea = qa * C02_T + a.tg, eb = qb * C02_T + b.tg; /* element numbers */
+  CUT(qa >= 0 && qa < TMUL(ntof, total) * C02_V, "row-and-view number in range");
+  __CPROVER_assert(ea >= 0 && (ea + 1) * C02_E <= TMUL(ntof, total) * C02_V * C02_T * C02_E, "element inside the data part of the stream");
+  if (ea == eb)
     {
-      struct BV c = a; c.tg++;
-      __CPROVER_assert(BV_OFFSET(c, s3d, order) == oa + C02_E, "a row of tangential positions is contiguous in the stream");
+      CUT(qa == qb && a.tg == b.tg, "same element => same tangential position");
+      CUT(a.tpos == b.tpos && a.pre * C02_V + ua == b.pre * C02_V + ub, "same element => same TOF block");
+      CUT(a.pos == b.pos && ua == ub, "same element => same segment");
+      CUT(a.ax == b.ax && a.vw == b.vw, "same element => same axial position and view");
+      __CPROVER_assert(BV_SAME(a, b), "different bins have different elements");
+    }
+  __CPROVER_assert(ea == eb || ea * C02_E + C02_E <= eb * C02_E || eb * C02_E + C02_E <= ea * C02_E, "different elements occupy disjoint byte ranges");
+#ifdef LEMMA_CANARY
+  __CPROVER_assert(0, "vacuity canary");
+#endif
+}
+/* the distributed closed forms the kernels are verified against equal the mixed-radix forms (distributivity; discharged
+   for power-of-two V, T, E only) */
+void h_lemma_forms_agree(void)
+{
+  struct PD s; mk_pd(&s); ghosts();
+  __CPROVER_assume(PD_VALID_CORE(&s) && s.offset >= 0 && s.offset < (1L << 40));
+  struct Bin b; mk_bin(&b);
+  __CPROVER_assume(BIN_IN_RANGE(&s, &b) && PREFIX_FACT(&s, &b));
+  _Bool mem = nondet_bool();
+  if (mem)
+    {
+      __CPROVER_assume(s.offset_3d_data == TOTAL_SINOS(&s) * C02_V * C02_T);
+      __CPROVER_assert(SPEC_INDEX(&s, &b) == SPEC_INDEX_H(&s, &b), "in-memory index: distributed form == mixed-radix form");
+    }
+  else
+    {
+      __CPROVER_assume(s.offset_3d_data == TOTAL_SINOS(&s) * C02_V * C02_T * C02_E);
+      __CPROVER_assume(s.storage_order >= Segment_AxialPos_View_TangPos && s.storage_order <= Timing_Segment_View_AxialPos_TangPos);
+      __CPROVER_assert(SPEC_OFFSET(&s, &b) == SPEC_OFFSET_H(&s, &b), "stream offset: distributed form == mixed-radix form");
     }
 #ifdef LEMMA_CANARY
   __CPROVER_assert(0, "vacuity canary");
